@@ -46,6 +46,7 @@ From Coq Require String.
 Import String.StringSyntax.
 From DT Require Import PyStr PyVal Defaults PyAst IR.
 From DT Require EmitAst ParseAst C01Spec C01SpecNG DocParseNG C05Spec C05Closed C02Codec C04Codec C05ClosedFacts.
+From DT Require PureUtils C02DocLinkDefs C03Spec C03DocLinkDefs.
 Import ListNotations.
 
 (* ---- the per-kind laws on the domain: round trip AND closure, no hypothesis ---- *)
@@ -226,3 +227,191 @@ Theorem C05_complete_needed :
      | Ok i' => C05Spec.preserved C05ClosedFacts.w_no_default i' | Err _ => true end = false.
 Proof. exact C05ClosedFacts.complete_needed. Qed.
 Print Assumptions C05_complete_needed.
+
+(* ================================================================== *)
+(* All seven kinds (added once props/C03Ext.v was available): function and method                                   *)
+(* ================================================================== *)
+(* conv_function / conv_method (model/C05Closed.v: conv_fn) = the composition C03_partial_closed is about:
+   function_docstring_text (DocEmit.to_docstring as emit.function calls it), EmitAst.emit_function (function_name f),
+   C03Spec.reparse_stmt (ast.unparse / ast.parse), function_docstring_ir (cleandoc, parse.docstring),
+   ParseSig.parse_function; any inline_types / emit_as_kwonlyargs / indent_level / emit_separating_tab / word_wrap
+   (fenv), emit_default_doc off.  conv_model7 extends conv_model by these two.
+   Domain: closed_dom7 o f i = closed_dom o i && internal_ok7 i (a carried body does not come from a function named f)
+     && for both kinds: C03Spec.guard_C03 and C03DocLinkDefs.doc_link_ok on core_view i (summary and parameters only; the
+        C03 domain admits neither a carried body nor a Missing return field, which the class / argparse parsers write:
+        emit.function and to_docstring are shown not to look at them: C05_conv_fn_core).
+   env_ok7 o: the argparse function has a non-empty name OTHER than f (needed: C05_env_ok7_needed, confirmed on the real
+   code: emit.function splices the carried  return argument_parser  into f and parse.function invents a return entry).
+   The old five-kind theorems above are unchanged.
+
+   With these, NO kind_law hypothesis of C05_chain_preserved remains on closed_dom7.
+
+   Enlarging the domain (C05_return_entry_blockers, C05_none_default_blockers; computed on the models, matching chain_safe):
+   - a typed return entry with prose: carried by rest, function, method only; numpydoc, google and class give it the
+     default 0, argparse drops it -- so it can only enter a domain for chains over {rest, function, method}: DONE below
+     on the domain closed_dom_ret (C05_chain_closed_ret);
+   - the default None under Optional[...]: only argparse blocks it (the default is lost).  For the other six kinds the
+     obstacle is the shape of the per-kind theorems, not the code: every kind returns the spelling NoneStr, which
+     [preserved] / same_interface identify with None, so the relation no longer determines the parameters and the
+     guards would have to be shown invariant under the three spellings of None; C02 has a closed form
+     (canon_default), C01 / C03 state a relation only.  Not done here.
+   Still NOT proved: function / method with emit_default_doc on (a C03 finding class), the inherited gaps of C03Ext
+   (cleandoc and reparse_stmt are models), and everything listed above for the five kinds. *)
+
+Theorem C05_law7 : forall o f k, C05Closed.env_ok7 o = true ->
+    C05Spec.kind_law (C05Closed.conv_model7 o f) (C05Closed.closed_dom7 o f) k.
+Proof. exact C05ClosedFacts.law7. Qed.
+Print Assumptions C05_law7.
+
+(* the function / method conversion, with what it writes: summary and parameters unchanged, no return entry, no
+   carried body *)
+Theorem C05_conv_fn_closed : forall o f c r i,
+    C05Closed.closed_dom7 o f i = true -> C05Closed.fn_guard o f (c :: r) i = true ->
+    exists i', C05Closed.conv_fn o f (c :: r) i = Ok i'
+               /\ C05ClosedFacts.core_eq i i' /\ ir_internal i' = None.
+Proof. exact C05ClosedFacts.conv_fn_closed. Qed.
+Print Assumptions C05_conv_fn_closed.
+
+(* emit.function / to_docstring do not look at name, type, an absent return entry or a harmless carried body *)
+Theorem C05_conv_fn_core : forall o f c r i,
+    C05Closed.internal_ok i = true -> C05Closed.internal_ok7 i = true -> (forall g, ir_returns i <> Has g) ->
+    C05Closed.conv_fn o f (c :: r) i = C05Closed.conv_fn o f (c :: r) (C05ClosedFacts.core i).
+Proof. exact C05ClosedFacts.conv_fn_core. Qed.
+Print Assumptions C05_conv_fn_core.
+
+(* every chain over all seven kinds, any length, repetitions allowed, no law hypothesis *)
+Theorem C05_chain_closed7 : forall o f cs, C05Closed.env_ok7 o = true ->
+    forall i, C05Closed.closed_dom7 o f i = true ->
+    exists i', C05Spec.chain (C05Closed.conv_model7 o f) cs i = Ok i'
+               /\ C05Spec.preserved i i' = true /\ C05Closed.closed_dom7 o f i' = true.
+Proof. exact C05ClosedFacts.chain_closed7. Qed.
+Print Assumptions C05_chain_closed7.
+
+Theorem C05_chain_closed7_no_swap : forall o f cs, C05Closed.env_ok7 o = true ->
+    forall i, C05Closed.closed_dom7 o f i = true ->
+    exists i', C05Spec.chain (C05Closed.conv_model7 o f) cs i = Ok i'
+               /\ List.length (ir_params i) = List.length (ir_params i')
+               /\ forall k n g, nth_error (ir_params i) k = Some (n, g) ->
+                  exists g', nth_error (ir_params i') k = Some (n, g')
+                             /\ C01Spec.same_typ g g' = true /\ C01Spec.same_prose g g' = true
+                             /\ C01Spec.same_default_ir (g_default g) (g_default g') = true.
+Proof. exact C05ClosedFacts.chain_closed7_no_swap. Qed.
+Print Assumptions C05_chain_closed7_no_swap.
+
+Theorem C05_chain_closed7_exact : forall o f cs, C05Closed.env_ok7 o = true ->
+    forall i, C05Closed.closed_dom7 o f i = true ->
+    exists i', C05Spec.chain (C05Closed.conv_model7 o f) cs i = Ok i' /\ ir_doc i' = ir_doc i /\ ir_params i' = ir_params i
+               /\ (forall g, ir_returns i' <> Has g).
+Proof. exact C05ClosedFacts.chain_closed7_exact. Qed.
+Print Assumptions C05_chain_closed7_exact.
+
+Theorem C05_closed_dom7_in_closed_dom : forall o f i,
+    C05Closed.closed_dom7 o f i = true -> C05Closed.closed_dom o i = true.
+Proof. exact C05ClosedFacts.closed_dom7_in_closed_dom. Qed.
+Print Assumptions C05_closed_dom7_in_closed_dom.
+
+(* the docstring links of C02 / C03 with the summary kept (local re-derivations of C02DocLink / C03DocLink proofs) *)
+Theorem C05_function_doc_link_summary : forall w o i,
+    C03Spec.guard_C03 o i = true -> C03DocLinkDefs.doc_link_ok w o i = true ->
+    exists text d,
+      C03DocLinkDefs.function_docstring_text w o i = Ok text
+      /\ C03DocLinkDefs.function_docstring_ir text = Ok d
+      /\ C03Spec.doc_agrees o i d = true
+      /\ (forall d0, ir_doc i = Has d0 -> d0 <> [] -> ir_doc d = Has d0).
+Proof. exact C05ClosedFacts.FnLink.fn_doc_link_sum. Qed.
+Print Assumptions C05_function_doc_link_summary.
+
+Theorem C05_class_doc_link_summary : forall w edd ww i,
+    C02Codec.guard_C02_ast i = true -> C02DocLinkDefs.doc_link_ok w edd ww i = true ->
+    exists text d, C02DocLinkDefs.class_docstring_text w edd ww i = Ok text /\ C02DocLinkDefs.class_docstring_ir text = Ok d
+                   /\ C02Codec.doc_agrees i d = true /\ ir_doc d = ir_doc i.
+Proof. exact C05ClosedFacts.ClassLink.doc_link_sum. Qed.
+Print Assumptions C05_class_doc_link_summary.
+
+(* non-vacuity: the five-parameter description is in the seven-kind domain for the API defaults of emit.function and for
+   types in the docstring / positional arguments / indent 1 / no separating tab / no word wrap; a twelve-hop chain *)
+Example C05_closed7_nonvacuous :
+  C05Closed.env_ok7 C05Closed.default_env = true
+  /\ C05Closed.closed_dom7 C05Closed.default_env C05Closed.default_fenv C05Closed.w_closed = true
+  /\ C05Closed.closed_dom7 C05Closed.default_env (C05Closed.mkFE false false 1 false false) C05Closed.w_closed = true.
+Proof. exact C05ClosedFacts.w_closed_in_dom7. Qed.
+Print Assumptions C05_closed7_nonvacuous.
+
+Example C05_sample_chain7 :
+  match C05Spec.chain (C05Closed.conv_model7 C05Closed.default_env C05Closed.default_fenv) C05ClosedFacts.sample_chain7
+                      C05Closed.w_closed with
+  | Ok i' => C05Spec.preserved C05Closed.w_closed i'
+             && C05Closed.closed_dom7 C05Closed.default_env C05Closed.default_fenv i'
+  | Err _ => false
+  end = true.
+Proof. exact C05ClosedFacts.sample_chain7_runs. Qed.
+Print Assumptions C05_sample_chain7.
+
+Theorem C05_env_ok7_needed :
+  C05Closed.env_ok C05ClosedFacts.env_fname_f = true /\ C05Closed.env_ok7 C05ClosedFacts.env_fname_f = false
+  /\ C05Closed.closed_dom7 C05ClosedFacts.env_fname_f C05Closed.default_fenv C05Closed.w_closed = true
+  /\ match C05Spec.chain (C05Closed.conv_model7 C05ClosedFacts.env_fname_f C05Closed.default_fenv)
+                         [C05Spec.KArgparse; C05Spec.KFunction] C05Closed.w_closed with
+     | Ok i' => negb (C05Spec.preserved C05Closed.w_closed i') && match ir_returns i' with Has _ => true | _ => false end
+     | Err _ => false
+     end = true.
+Proof. exact C05ClosedFacts.env_ok7_needed. Qed.
+Print Assumptions C05_env_ok7_needed.
+
+Theorem C05_return_entry_blockers :
+  map (fun k => C05ClosedFacts.passes k C05ClosedFacts.w_ret) C05Spec.all_kinds = [true; false; false; false; true; true; false]
+  /\ map (fun k => C05Spec.chain_safe [k] C05ClosedFacts.w_ret) C05Spec.all_kinds = [true; false; false; false; true; true; false].
+Proof. exact C05ClosedFacts.return_entry_blockers. Qed.
+Print Assumptions C05_return_entry_blockers.
+
+Theorem C05_none_default_blockers :
+  map (fun k => C05ClosedFacts.passes k C05ClosedFacts.w_none) C05Spec.all_kinds = [true; true; true; true; true; true; false]
+  /\ map (fun k => C05Spec.chain_safe [k] C05ClosedFacts.w_none) C05Spec.all_kinds = [true; true; true; true; true; true; false]
+  /\ map (fun k => match C05Closed.conv_model7 C05Closed.default_env C05Closed.default_fenv k C05ClosedFacts.w_none with
+                   | Ok i' => match ir_params i' with (_, g) :: _ => g_default g | [] => None end
+                   | Err _ => None
+                   end) C05Spec.all_kinds
+     = [Some (DV (VStr PureUtils.NoneStr)); Some (DV (VStr PureUtils.NoneStr)); Some (DV (VStr PureUtils.NoneStr));
+        Some (DV (VStr PureUtils.NoneStr)); Some (DV (VStr PureUtils.NoneStr)); Some (DV (VStr PureUtils.NoneStr)); None].
+Proof. exact C05ClosedFacts.none_default_blockers. Qed.
+Print Assumptions C05_none_default_blockers.
+
+(* ================================================================== *)
+(* A typed return entry with prose (no default), over the kinds that carry it: rest, function, method               *)
+(* ================================================================== *)
+(* closed_dom_ret o f i = chain_safe [rest; function; method] i && complete_ret i (as complete, with a return entry that has
+   prose and a type and no default) && guard_C01_rest false i && internal_ok i && internal_ok7 i
+   && for both function kinds guard_C03 and doc_link_ok on ret_view i (summary, parameters, return entry).
+   On it [preserved] determines summary, parameters AND the return entry (C05_complete_ret_preserved_exact). *)
+
+Theorem C05_law_ret : forall o f k, C05Closed.ret_kind k = true ->
+    C05Spec.kind_law (C05Closed.conv_model7 o f) (C05Closed.closed_dom_ret o f) k.
+Proof. exact C05ClosedFacts.law_ret. Qed.
+Print Assumptions C05_law_ret.
+
+Theorem C05_chain_closed_ret : forall o f cs, forallb C05Closed.ret_kind cs = true ->
+    forall i, C05Closed.closed_dom_ret o f i = true ->
+    exists i', C05Spec.chain (C05Closed.conv_model7 o f) cs i = Ok i'
+               /\ C05Spec.preserved i i' = true /\ C05Closed.closed_dom_ret o f i' = true.
+Proof. exact C05ClosedFacts.chain_closed_ret. Qed.
+Print Assumptions C05_chain_closed_ret.
+
+Theorem C05_complete_ret_preserved_exact : forall i i',
+    C05Closed.complete_ret i = true -> C05Spec.preserved i i' = true ->
+    ir_doc i' = ir_doc i /\ ir_params i' = ir_params i /\ ir_returns i' = ir_returns i.
+Proof. exact C05ClosedFacts.complete_ret_preserved_eq. Qed.
+Print Assumptions C05_complete_ret_preserved_exact.
+
+(* five parameters and a return entry; both option sets of emit.function; a six-hop chain *)
+Example C05_closed_ret_nonvacuous :
+  C05Closed.closed_dom_ret C05Closed.default_env C05Closed.default_fenv C05Closed.w_ret_closed = true
+  /\ C05Closed.closed_dom_ret C05Closed.default_env (C05Closed.mkFE false false 1 false false) C05Closed.w_ret_closed = true
+  /\ match C05Spec.chain (C05Closed.conv_model7 C05Closed.default_env C05Closed.default_fenv)
+                         [C05Spec.KFunction; C05Spec.KRest; C05Spec.KMethod; C05Spec.KMethod; C05Spec.KRest; C05Spec.KFunction]
+                         C05Closed.w_ret_closed with
+     | Ok i' => C05Spec.preserved C05Closed.w_ret_closed i'
+                && C05Closed.closed_dom_ret C05Closed.default_env C05Closed.default_fenv i'
+     | Err _ => false
+     end = true.
+Proof. exact C05ClosedFacts.w_ret_closed_in_dom. Qed.
+Print Assumptions C05_closed_ret_nonvacuous.
